@@ -830,6 +830,14 @@ def glue_greenlet() -> None:
                     and outer_frame.f_back is not None
                 ):
                     outer_frame = outer_frame.f_back
+        elif sys.implementation.name == "cpython":
+            # A suspended greenlet's stack ends where its f_back links run
+            # out. Say so explicitly: if we're being called from one of its
+            # descendants, then a slice with no outer frame would continue
+            # into the frames of all of its ancestors too.
+            outer_frame = inner_frame
+            while outer_frame.f_back is not None:
+                outer_frame = outer_frame.f_back
         return StackSlice(outer=outer_frame, inner=inner_frame)
 
     if sys.implementation.name != "pypy":
